@@ -46,6 +46,11 @@ Theorem C30_add_global_appends :
 Proof. exact add_global_appends. Qed.
 Print Assumptions C30_add_global_appends.
 
+(* ... and that stored type t' is the requested type itself, for every value type the call accepts *)
+Theorem C30_requested_type_kept : forall t t', gty_conv t = Ok t' -> t' = t.
+Proof. exact gty_conv_exact. Qed.
+Print Assumptions C30_requested_type_kept.
+
 Theorem C30_add_memory_appends :
   forall s fp t s1 r, astep s (OAddMem fp t) = Ok (s1, r) ->
   s_items (m_m (a_m s1)) = s_items (m_m (a_m s)) ++ [mkItem (lenN (s_items (m_m (a_m s)))) None false fp]
@@ -203,8 +208,9 @@ Print Assumptions C30_checker_sound_data.
 
 (* The remaining part of the property -- that the *index* carried by every reference to a returned id designates
    the added item once imports are added or entities deleted (Wasm's index-space rule) -- rests on recalculate_ids,
-   whose closed form is C06_index_space_closed_form; it is false of the faithful model in the classes below and is
-   decided per history by CheckAdds.verdict30 on the real output. *)
+   whose closed form is C06_index_space_closed_form; it is decided per history by CheckAdds.verdict30 on the real output.
+   Every class in which it used to be false of the faithful model (D03, D06, D24, 300 = D30) is repaired; the former
+   witnesses below are positive examples now. *)
 
 Definition i32g := mkGT 0 false false.
 (* the former D03 witness (global exports used to be copied): the export of global 0 follows the global when
@@ -228,10 +234,12 @@ Example C30_former_D06_witness_holds :
   let c := self_a [] [99] [(1, mkGP i32g (Some [IVal (VI32 5)]))] [] [] [] false [OAddImpGlobal 2 i32g; ODelete SG 1] [(SG, 0)] in
   agree c = true /\ dom_of (verdict30 c) = true /\ holds_of (verdict30 c) = true.
 Proof. vm_compute. repeat split; reflexivity. Qed.
-(* class 300: a global requested with DataType::FuncRef (the parser's name for (ref func)) is emitted as funcref *)
-Example C30_refuted_300 :
+(* the former class-300 / D30 witness (a global requested with DataType::FuncRef, the parser's name for (ref func), used to be
+   emitted as funcref): the global has the requested type and the property holds *)
+Example C30_former_D30_witness_holds :
   let c := self_a [] [99] [] [] [] [] false [OAddGlobal 1 (mkGT 7 false false) [IRefFunc 0]] [(SG, 0)] in
-  agree c = true /\ dom_of (verdict30 c) = true /\ holds_of (verdict30 c) = false /\ known_300 c = true.
+  agree c = true /\ dom_of (verdict30 c) = true /\ holds_of (verdict30 c) = true /\ known_of (verdict30 c) = []
+  /\ option_map ob_globals (ao_enc c) = Some [mkOG (mkGT 7 false false) [CRefFunc 0]].
 Proof. vm_compute. repeat split; reflexivity. Qed.
 
 (* non-vacuity: fifteen operations (globals with a v128 of all ones, a signalling-NaN f32, ref.func and global.get
@@ -274,7 +282,7 @@ Example C30_sequence_nonvacuous :
   let adds : list greq := [(10, mkGT 4 false false, [IVal (VV128 340282366920938463463374607431768211455%Z)]);
                            (11, mkGT 7 true false, [IRefNull 0]); (12, mkGT 3 false true, [IVal (VF64 9221120237041090561%Z)])] in
   fresh_all (abase c) adds /\ Forall req_ok adds
-  /\ map render adds = [mkOG (mkGT 4 false false) [CV128 (-1)%Z]; mkOG (mkGT 5 true false) [CRefNull 0];
+  /\ map render adds = [mkOG (mkGT 4 false false) [CV128 (-1)%Z]; mkOG (mkGT 7 true false) [CRefNull 0];
                         mkOG (mkGT 3 false true) [CF64 9221120237041090561%Z]].
 Proof.
   cbn zeta. split; [|split].
